@@ -23,7 +23,7 @@ pub static DEF: PropDef = PropDef {
     assumptions: &[
         "the barrier (database actor, writer, database actor, event service round trips) orders the check after the emission of the events of every request already acknowledged",
     ],
-    cases: |t| t.pick(80, 1500),
+    cases: |t| t.pick(160, 1500),
     shards: |t| t.pick(12, 16),
     case_budget_s: |_| 240,
     min_conclusive: |t| t.pick(30, 500),
